@@ -132,6 +132,9 @@ func (vm *VM) Reset() {
 func (vm *VM) stop() (Addr, bool) {
 	const maxAddr = 1<<32 - 1
 	atomic.StoreInt32(&vm.env.done, 1)
+	if verifOn {
+		verifRT(vm, "vm-stop", 0, 0)
+	}
 	return maxAddr, false
 }
 
@@ -263,6 +266,13 @@ func (vm *VM) callNative(fn *NativeFunction, numVariadic int8, shift StackShift,
 	if fn.value.IsNil() {
 		panic(errNilPointer)
 	}
+	if verifOn {
+		g := 0
+		if asGoroutine {
+			g = 1
+		}
+		verifRT(vm, "native-call", g, fn.value.Pointer())
+	}
 
 	// Make a copy of the frame pointer.
 	fp := vm.fp
@@ -327,6 +337,9 @@ func (vm *VM) callNative(fn *NativeFunction, numVariadic int8, shift StackShift,
 
 		// Get a slice of reflect.Value for the arguments.
 		args = fn.argsPool.Get().([]reflect.Value)
+		if verifOn {
+			verifRT(vm, "args-get", len(args), verifArgsPtr(args))
+		}
 
 		// Prepare the arguments.
 		lastNonVariadic := nunIn
@@ -431,6 +444,9 @@ func (vm *VM) callNative(fn *NativeFunction, numVariadic int8, shift StackShift,
 		}
 
 		if args != nil {
+			if verifOn {
+				verifRT(vm, "args-put", len(args), verifArgsPtr(args))
+			}
 			fn.argsPool.Put(args)
 		}
 
@@ -654,6 +670,9 @@ func (vm *VM) startGoroutine() bool {
 	copy(nvm.regs.float, vm.regs.float[vm.fp[1]+Addr(off.A):vm.fp[1]+127])
 	copy(nvm.regs.string, vm.regs.string[vm.fp[2]+Addr(off.B):vm.fp[2]+127])
 	copy(nvm.regs.general, vm.regs.general[vm.fp[3]+Addr(off.C):vm.fp[3]+127])
+	if verifOn {
+		verifRT(vm, "go", 0, verifVMPtr(nvm))
+	}
 	go nvm.runFunc(fn, vars)
 	vm.pc++
 	return false
